@@ -155,6 +155,15 @@ Check newton_scalar_local : forall (O : NOps) (c : ncfg (NR O) (NA O)) (f g : NA
   newton_scalar O c g = Ok (r, evs).
 Print Assumptions newton_scalar_local.
 
+Theorem newton_sys_local : forall (O : NOps) (c : ncfg (NR O) (list (NA O))) (f g : list (NA O) -> res (list (NA O))) r evs,
+  newton_sys O c f = Ok (r, evs) -> (forall p, In p evs -> f p = g p) ->
+  newton_sys O c g = Ok (r, evs).
+Proof. intros O c f g r evs H Hin. exact (newton_sys_local_lemma O c f g r evs H Hin). Qed.
+Check newton_sys_local : forall (O : NOps) (c : ncfg (NR O) (list (NA O))) (f g : list (NA O) -> res (list (NA O))) r evs,
+  newton_sys O c f = Ok (r, evs) -> (forall p, In p evs -> f p = g p) ->
+  newton_sys O c g = Ok (r, evs).
+Print Assumptions newton_sys_local.
+
 Theorem newton_sysjac_local : forall (O : NOps) (c : ncfg (NR O) (list (NA O))) (f g : list (NA O) -> res (list (NA O))) jf jg r evs,
   newton_sysjac O c f jf = Ok (r, evs) ->
   (forall p, In (CF p) evs -> f p = g p) -> (forall p, In (CJ p) evs -> jf p = jg p) ->
